@@ -185,6 +185,7 @@ pub struct State {
     expect_fp: u64,
     nchoice: usize,
     steps: u64,
+    steps_at_begin: u64,
     run_len: u64,
     cvseq: u64,
     fp_roll: u64,
@@ -255,6 +256,7 @@ impl Engine {
                 expect_fp,
                 nchoice: 0,
                 steps: 0,
+                steps_at_begin: 0,
                 run_len: 0,
                 cvseq: 0,
                 fp_roll: 0xcbf29ce484222325,
@@ -311,6 +313,8 @@ impl Engine {
         st.branching = true;
         st.t0 = st.now;
         st.run_len = 0;
+        // the step horizon counts from the start of the window (warm-up may be long)
+        st.steps_at_begin = st.steps;
         for t in st.th.iter_mut() {
             t.active = false;
         }
@@ -811,7 +815,7 @@ impl Engine {
     /// `me` is at a scheduling point (enabled or blocked), returns when `me` runs again
     fn resched<'a>(&'a self, mut st: MutexGuard<'a, State>, me: usize) {
         st.steps += 1;
-        if st.steps > st.cfg.horizon {
+        if st.steps - st.steps_at_begin > st.cfg.horizon {
             self.finish_locked(st, ST_LIVELOCK, "livelock", "livelock: step horizon exceeded");
         }
         let (mut st, next) = self.choose(st, me);
